@@ -93,6 +93,16 @@ def check_table(case):
     except Exception as err:  # noqa
         sig = {'kind': 'table_write_raises', 'exc': type(err).__name__, 'int16_cell': 'int16' in kinds}
         return [(sig, 'LrTableWrite%r: %s: %s' % ((case['lrtype'], case['name'], cols, table_arg), type(err).__name__, err))], ('raise',)
+    # listing the rows (in any order) is a query: a second writer that is asked for its sorted row names first writes the same bytes
+    try:
+        tw2 = LogiRec.LrTableWrite(case['lrtype'], case['name'], cols, table_arg)
+        listed = [list(tw2.genRowNames(sort=s)) for s in (1, -1, 0)]
+        body2 = bytes([case['lrtype'], 0]) + b''.join(bytes(b) for b in tw2.genLisBytes())
+        if body2 != body:
+            bad.append(({'kind': 'table_bytes_after_listing'}, 'after genRowNames(sort=1/-1/0) (%r) the table is written as %s, without the listing as %s'
+                        % (listed[0], body2.hex(), body.hex())))
+    except Exception as err:  # noqa
+        bad.append(({'kind': 'table_listing_raises', 'exc': type(err).__name__}, 'genRowNames then genLisBytes: %s: %s' % (type(err).__name__, err)))
     # model: duplicate row names are dropped, the first is kept
     kept, seen = [], set()
     for row in rows:
@@ -111,6 +121,7 @@ def check_table(case):
         fr = File.FileRead(CountingBytesIO(data), 'x', keepGoing=False)
         tr = LogiRec.LrTableRead(fr)
         got_name = tr.value
+        sorted_names = list(tr.genRowNames(sort=1))      # a query before the rows are read must not change them
         got_rows = []
         for r in tr.genRows():
             got_rows.append([(c.mnem, c.value, c.units) for c in r.genCells()])
